@@ -3859,7 +3859,7 @@ static void DecodeTBL(Word Index) {
                     CodeLen = 4 + AdrResult.Cnt;
                 }
             } else {
-                strcpy(ArgStr[3].str.p_str, p + 1);
+                as_dynstr_copy_c_str(&ArgStr[3].str, p + 1);
                 *p = '\0';
                 if (DecodeAdr(&ArgStr[1], MModData, &AdrResult)) {
                     w2 = AdrResult.Mode;
